@@ -207,6 +207,10 @@ def C11(ctx):
     _sdd_family(ctx, "c11", "TraceSdd_C11.cfg", nq=3, nt=16)
     _sdd_family(ctx, "sem", "TraceSdd_C11.cfg", nq=4, nt=24)
     record_and_validate(ctx, td_jobs(ctx, 3 if ctx.quick else 16, 150), "TraceTopDown", "TraceTopDown_C11.cfg")
+    # one trace across representations: the same functions as BDDs (2 orders), SDDs (2 vtrees) and top-down d-DNNFs
+    # (both stores), their negations included: the hash must be a function of the denotation, and 1 - hash for the negation
+    record_and_validate(ctx, [("hashx_%d" % i, ["record", "hashx", "--seed", ctx.seed * 1000 + i, "--segments", 40 if ctx.quick else 100,
+                                                "--nmax", 4 + (i % 2)]) for i in range(3 if ctx.quick else 16)], "TraceSer", "TraceSer.cfg")
     # the hash-identified builders drive the unique table in equality-by-hash mode: the table must then be a set
     # keyed by the FULL 64-bit hash (RobinHood refines SetTable with ByHash = TRUE; wide hashes agreeing on 32 bits)
     model_check(ctx, "RobinHood", "MC_RobinHood_byhash.cfg", "RobinHood in equality-by-hash mode refines SetTable keyed by hash", workers=6)
@@ -216,6 +220,8 @@ def C11(ctx):
 
 
 def C12(ctx):
+    model_check(ctx, "MC_BranchBound", "MC_BranchBound_2.cfg", "marginal MAP branch and bound: bound is an upper bound and the search returns the optimum, "
+                "all 2-variable functions x query lists x weight grid (3600 configurations)", workers=4, timeout=900)
     ctx.assumptions += ["domain as stated in the property: probabilities k/8 summing to one off the query variables; MEU: "
                         "decision variables weigh (1,0), rewards >= 0 on the last variables of the order"]
     _bdd_family(ctx, "c12", "TraceBdd_C12.cfg")
